@@ -63,6 +63,8 @@ FEATURES = {
     "deprecated_only": "message M { option deprecated = true; int32 x = 1 [deprecated = true]; }",
     # a field named like a builtin scalar type, declared FIRST, then fields of that scalar in every label: the order
     # for which the plugin's builtins.<type> qualification is meant to work under every option combination
+    # members whose names start with a digit once the enum-name prefix is stripped (the plugin emits _1, _2_0)
+    "enum_digit_members": "enum Version { VERSION_UNSPECIFIED = 0; VERSION_1 = 1; VERSION_2_0 = 2; V3 = 3; version_4 = 4; } message M { Version v = 1; repeated Version r = 2; }",
     "builtin_int": "message M { int64 int = 1; repeated int32 a = 2; optional int64 b = 3; map<string, sint32> c = 4; oneof g { uint32 d = 5; string e = 6; } }",
     "builtin_str": "message M { string str = 1; repeated string a = 2; optional string b = 3; map<string, string> c = 4; oneof g { string d = 5; int32 e = 6; } }",
     "builtin_float": "message M { double float = 1; repeated float a = 2; optional double b = 3; map<int32, float> c = 4; oneof g { float d = 5; int32 e = 6; } }",
